@@ -210,9 +210,8 @@ func processQueryArithmeticNodeOp(queryOp *structs.QueryArithmetic, resMap map[u
 		} else if scalarValuePtr != nil {
 			isScalar = true
 			scalarValue = *scalarValuePtr
-		} else {
-			return fmt.Errorf("processQueryArithmeticNodeOp: processNodeExpr: result is empty and scalarValuePtr is nil")
 		}
+		// else: the expression is a vector without elements
 
 		// Generate a new hash by adding the operation counter
 		newHash := *exprSide + uint64(*operationCounter)
